@@ -76,6 +76,12 @@ func init() {
 }
 
 var checks = map[string]*Check{
+	"C10": {ID: "C10", Parts: []Part{{Harness: "core", Func: "C10"}, {Harness: "corec", Func: "C10c", Race: true}}, GoMaxProcs: 1, Category: "exploration", QuickDeadline: 240, ThoroughDeadline: 1500,
+		Engine: "E1+E2", DesignRef: "6/C10",
+		Technique: "bounded-exhaustive enumeration of (polluter, [polluter,] probe) script sequences with solo-equivalence and caller-snapshot oracles; stateless schedule exploration of concurrent executions of one compiled source (with a race-detector pass)",
+		LevelText: "Every ordered pair and triple of polluting scripts and probe scripts is executed on the real interpreter (directly and through Spec.Walk, with shared compiled programs and shared caller objects): the probe must observe nothing, the caller's bindings and props must be unchanged.",
+		LevelNote: "Trusted: the script vocabulary as a stand-in for 'whatever a script does'; goja itself.",
+		Assumptions: commonAssumptions},
 	"C12": {ID: "C12", Parts: []Part{{Harness: "corec", Func: "C12", Race: true}}, Category: "model_checking", QuickDeadline: 240, ThoroughDeadline: 1500, GoMaxProcs: 1,
 		Engine: "E2", DesignRef: "6/C12",
 		Technique: "stateless schedule exploration of concurrent walks over one compiled spec (yield points inside native and ECMAScript actions/guards, shimmed atomics of UpdatableSpec) with per-walk solo-equivalence oracle, plus a ThreadSanitizer pass on the explored schedules",
